@@ -38,6 +38,10 @@ QUICK_RUNS = {
     "C04": 30000,
     "C18": 30000,
     "C19": 30000,
+    "C05": 30000,
+    "C06": 30000,
+    "C07": 30000,
+    "C14": 30000,
 }
 THOROUGH_BATCH = 24000
 MAX_REPORT = 4
@@ -235,7 +239,7 @@ def main() -> int:
             r = runner.execute(cand)
             return any(x["rule"] == rule and x["key"] == key for x in r["violations"])
 
-        w = runner.world(prop)
+        w = runner.world(prop, plan["world"])
         small, used = shrink(plan, still_fails, simplest=getattr(w, "SIMPLEST", None))
         res = runner.execute(small, want_digest=True)
         msg = next((x["msg"] for x in res["violations"] if x["rule"] == rule and x["key"] == key), rec["msg"])
